@@ -26,6 +26,15 @@ Deepening round (helpers in C20_helpers.py):
   R3 families          clocks also through `elapsed`, file time stamps / inode numbers, parent pid, RandomState, random
                        names, addresses; and the same for every library function (builders, conversions in libcnb-data),
                        not only what is reachable from the writers; threads in that code are reported as not decided
+Generalisation round 5:
+  R2 triage owner      a triage is stated for a public function and a container in its terms; private functions only that
+                       function can reach (thin generic wrapper + non-generic body, phases) are its code: their iteration
+                       sites are judged with the container lifted to the owner's terms, and the completeness / shape /
+                       element-wise obligations range over that whole scope (C20_helpers.triage_scope, lift_to)
+  R2 keyed transfer    an untriaged hash iteration is discharged semantically when its order cannot be observed: a complete
+                       loop directly over the distinct keys / entries whose body only inserts something computed from the
+                       element under the element's own key into a keyed container, carries no state between iterations and
+                       does not read the target (C20_helpers.order_free_transfer); anything else stays VIOLATED
 """
 import re
 from .lib import serde_schema as S
@@ -52,14 +61,14 @@ SINK_TRIAGED = {
 # what was triaged per function is *which* hash container is iterated (not how the loop is spelled): a predicate
 # on the symbolic source of the iteration, in the function's own terms
 def _self_field(name):
-    return lambda f, v: v[0] == 'field' and v[2] == name and v[1][0] == 'param' and v[1][2] == 0
+    return lambda f, v: v[0] == 'field' and v[2] == name and v[1][0] == 'param' and v[1][2] == 0 and v[1][1] == f.path
 
 
 TRIAGED_SOURCE = {
     'libcnb::layer_env::LayerEnv::write_to_layer_dir': ('self.process', _self_field('process')),
-    'libcnb::layer::shared::replace_layer_exec_d_programs': ('the exec_d_programs parameter', lambda f, v: v[0] == 'param' and v[2] == 2),
+    'libcnb::layer::shared::replace_layer_exec_d_programs': ('the exec_d_programs parameter', lambda f, v: v[0] == 'param' and v[2] == 2 and v[1] == f.path),
     'libcnb::env::Env::iter': ('self.inner', _self_field('inner')),
-    "<&'a libcnb::env::Env as std::iter::IntoIterator>::into_iter": ('self / self.inner', lambda f, v: (v[0] == 'param' and v[2] == 0) or _self_field('inner')(f, v)),
+    "<&'a libcnb::env::Env as std::iter::IntoIterator>::into_iter": ('self / self.inner', lambda f, v: (v[0] == 'param' and v[2] == 0 and v[1] == f.path) or _self_field('inner')(f, v)),
 }
 
 
@@ -90,8 +99,14 @@ def iteration_sources(sl, f, c, arg=0):
     from .lib.paths import strip
     if not c.args or arg >= len(c.args):
         return [('unknown', 'no receiver')]
+    return iteration_sources_v(sl.operand(f, c.args[arg]))
+
+
+def iteration_sources_v(v0):
+    from .lib import iters
+    from .lib.paths import strip
     out = []
-    work = [strip(sl.operand(f, c.args[arg]))]
+    work = [strip(v0)]
     n = 0
     while work and n < 40:
         n += 1
@@ -234,28 +249,53 @@ def run(ctx, rep):
     from . import layer_roles
     ROLES = layer_roles.roles(prog, sl)
     alias = {ROLES['REPLACE_EXECD']: 'libcnb::layer::shared::replace_layer_exec_d_programs'} if ROLES.get('REPLACE_EXECD') else {}
+    # a triage is stated for a public function and is about *which container* is iterated: it covers the private
+    # bodies / phases the function was split into (nobody else can reach them — C20_helpers.sink_owner), with the
+    # iterated container re-expressed in the public function's terms at the call sites (C20_helpers.lift_to)
+    triaged_here = {p: 1 for p in prog.fns if alias.get(p, p) in TRIAGED}
+    E = Effects(prog, sl)
     for fp, cs in sorted(sites.items()):
         rep.sites(len(cs))
         rep.analysed(prog.fns[fp])
-        tfp = alias.get(fp, fp)
+        g = prog.fns[fp]
+        ofp = fp if fp in triaged_here else (H.sink_owner(prog, g, triaged_here) if g.kind != 'Closure' else None)
+        tfp = alias.get(ofp, ofp) if ofp else fp
         reason = TRIAGED.get(tfp)
         if reason:
             what, pred = TRIAGED_SOURCE[tfp]
-            top = prog.fns[fp]
-            srcs = [v for c in cs for v in iteration_sources(sl, top, c, site_arg.get(id(c), 0))]
+            top = prog.fns[ofp]
+            srcs, lost = [], []
+            for c in cs:
+                for v in iteration_sources(sl, g, c, site_arg.get(id(c), 0)):
+                    lv = H.lift_to(prog, sl, g, v, ofp)
+                    if lv is None:
+                        lost.append(vstr(v)[:60])
+                    else:
+                        srcs.extend(x for y in lv for x in iteration_sources_v(y))
             bad = [vstr(v)[:60] for v in srcs if not pred(top, v)]
-            rep.check(not bad, 'R2', fp if not bad else fp + '/new-iteration', cs[0].where(), 'hash iteration over %s only — triaged: %s' % (what, reason),
+            if lost and not bad:
+                rep.unproven('R2', fp, cs[0].where(), 'a private part of the triaged function %s iterates a hash container (%s) that could not be '
+                             're-expressed in that function\'s terms: whether it is %s is not decided' % (ofp, lost[:3], what))
+                continue
+            rep.check(not bad, 'R2', fp if not bad else fp + '/new-iteration', cs[0].where(), 'hash iteration over %s only — triaged%s: %s' % (what, '' if ofp == fp else ' for ' + ofp, reason),
                       'a triaged function iterates a further hash container (%s; triaged: %s): re-triage whether its order can reach output bytes' % (bad, what))
         else:
+            # not triaged by name: an iteration whose order cannot be observed afterwards needs no triage — a complete loop
+            # that only inserts each entry under its own key into a keyed container (C20_helpers.order_free_transfer)
+            ok, why = H.order_free_transfer(prog, sl, E, g, [c for c in cs if id(c) not in site_arg], [c for c in cs if id(c) in site_arg])
+            if ok:
+                rep.holds('R2', fp, cs[0].where(), 'hash iteration is a keyed transfer: a complete loop that only inserts every entry under its own key into a keyed '
+                          'container — the result is the same for every iteration order')
+                continue
             rep.violated('R2', fp, cs[0].where(), 'untriaged iteration over a hash-ordered container (%s): if its order can reach the bytes of an output file, '
-                         'two runs on identical inputs differ' % sorted({(c.name or '?') + (' <- the container as argument %d' % site_arg[id(c)] if id(c) in site_arg else '') for c in cs}))
+                         'two runs on identical inputs differ (not an order-free keyed transfer: %s)'
+                         % (sorted({(c.name or '?') + (' <- the container as argument %d' % site_arg[id(c)] if id(c) in site_arg else '') for c in cs}), why))
     for fp in TRIAGED:
         if fp not in sites and fp in prog.fns:
             rep.holds('R2', 'stale-triage/' + fp, '-', 'triaged site no longer iterates a hash container', nontrivial=False)
     # the two triaged writers really write one file per key (path contains the key, data the value).  Stated on the
     # writers' *effects* with a slicer that knows what an in-place grown Vec holds (C20_helpers.VecSlicer): a table of
     # (dir, delta) pairs extended by the process scopes and then looped over is the same sequence of writes
-    E = Effects(prog, sl)
     from . import layer_env_common as L
     wf, wt, wcalls = L.writer_scope_table(prog, sl)
     # the same obligation on which *data* a write ranges over (the delta of one element of self.process, however it
@@ -294,17 +334,28 @@ def run(ctx, rep):
         from .lib.guards import edge_dominates
         from .lib.paths import strip as _st
         partial = []
-        for g in [top] + prog.closures_of(top):
+        scope = []
+        for g in H.triage_scope(prog, top):
+            # values of a closure are read in the terms of the function it is written in (upvars resolved)
+            home = prog.fns.get(g.parent, g) if g.kind == 'Closure' else g
+
+            def is_cont_g(v, home=home, top=top, pred=pred):
+                if home.path == top.path:
+                    return pred(top, v)
+                lv = H.lift_to(prog, sl, home, v, top.path)
+                return bool(lv) and all(pred(top, _st(x)) for x in lv)
+            scope.append((g, is_cont_g))
+        for g, is_cont_g in scope:
             for lp in E.loops(g):
                 srcs = iteration_sources(sl, g, lp.next_call)
-                if not any(pred(top, _st(v)) for v in srcs):
+                if not any(is_cont_g(_st(v)) for v in srcs):
                     continue
                 ex = getattr(lp, 'exhaust', None)
                 early = [(b, t) for b in lp.body for t in g.succs(b) if t not in lp.body and (b, t) != ex]
                 for st in E.sites(g):
                     if ex is None or st.bb in lp.body or any(st.bb == t or st.bb in g.reachable(t) for _, t in early):
                         partial.append('%s:%d' % (g.file, g.line))
-        positional, undecided = H.hash_iteration_shape(prog, sl, E, top, lambda v, top=top, pred=pred: pred(top, v))
+        positional, undecided = H.hash_iteration_shape(prog, sl, E, top, lambda v, top=top, pred=pred: pred(top, v), scope=scope)
         rep.check(not partial and not positional, 'R2', 'triage-basis/complete/' + tfp.split('::')[-1], '%s:%d' % (top.file, top.line),
                   'every element of %s is visited on every success path' % what,
                   ('the loop over %s can be left early with success: which elements were handled depends on the iteration order' % what) if partial else
